@@ -605,7 +605,14 @@ func checkCli(c CliCase) error {
 	if toFile {
 		args = append(args, "-o", "cons.nw")
 	}
-	r := cli.Run(dir, in.String(), args...)
+	// the collection on stdin, in a file (LF or CRLF line ends, one of the layouts of
+	// cli.TreesLayout), in a gzip file or as a Nexus document
+	extra, stdin, infiles, _ := cli.Present(cli.InModes[(len(in.String())+len(c.Trees))%len(cli.InModes)], in.String(), "-i")
+	for n, content := range infiles {
+		cli.WriteIn(dir, n, content)
+	}
+	args = append(args, extra...)
+	r := cli.Run(dir, stdin, args...)
 	ctx := fmt.Sprintf(" (gotree %v)\n%s", args, in.String())
 	if !c.OmitF && (c.Cutoff < 0.5 || c.Cutoff > 1) {
 		// a threshold outside [0.5,1] is refused (the consensus would not be a tree / is not defined)
@@ -636,7 +643,7 @@ func checkCli(c CliCase) error {
 func TestC09Cli(t *testing.T) {
 	h.Run(t, h.Spec[CliCase]{
 		Property: "C09", Name: "cli", Quick: 1600, Thorough: 32000,
-		Rule: "the same collections and thresholds through `gotree compute consensus -f x`, and with -f left out (documented default 0.5): the printed tree is judged against the same frequency table; one case in eight passes a threshold outside [0.5,1] (0.3, 1.5, 50, 75, 100 ...), which must be refused with a non-zero status; non-trivial = >= 3 trees",
+		Rule: "the same collections and thresholds through `gotree compute consensus -f x`, and with -f left out (documented default 0.5), the collection handed over on stdin, in a file with LF or CRLF line ends and the layouts of tree files met in practice, in a gzip file or as a Nexus document: the printed tree is judged against the same frequency table; one case in eight passes a threshold outside [0.5,1] (0.3, 1.5, 50, 75, 100 ...), which must be refused with a non-zero status; non-trivial = >= 3 trees",
 		Gen: func(t *rapid.T, thorough bool) CliCase {
 			trees := genCollection(t, false, 1)
 			c := CliCase{Trees: trees, Cutoff: cutoff(t, len(trees)), OmitF: rapid.IntRange(0, 3).Draw(t, "omitf") == 0}
